@@ -80,3 +80,46 @@ func lvlFor(tier string) int {
 
 // fresh returns a pointer to a new zero value of t.
 func fresh(t *ref.T) reflect.Value { return reflect.New(t.Reflect()) }
+
+// badSliceHeader walks a decoded value and reports the first slice whose header is not sane
+// (capacity below its length, or elements without a backing array): such a value compares equal
+// element by element and corrupts memory on the next append or re-slice.
+func badSliceHeader(rv reflect.Value, path string) string {
+	switch rv.Kind() {
+	case reflect.Ptr, reflect.Interface:
+		if !rv.IsNil() {
+			return badSliceHeader(rv.Elem(), path+"*")
+		}
+	case reflect.Struct:
+		for i := 0; i < rv.NumField(); i++ {
+			if rv.Type().Field(i).PkgPath != "" && rv.Type().Field(i).Type.Kind() != reflect.Slice {
+				continue
+			}
+			if s := badSliceHeader(rv.Field(i), path+"."+rv.Type().Field(i).Name); s != "" {
+				return s
+			}
+		}
+	case reflect.Map:
+		it := rv.MapRange()
+		for it.Next() {
+			if s := badSliceHeader(it.Key(), path+"[key]"); s != "" {
+				return s
+			}
+			if s := badSliceHeader(it.Value(), path+"[value]"); s != "" {
+				return s
+			}
+		}
+	case reflect.Slice:
+		if rv.Cap() < rv.Len() || (rv.Len() > 0 && rv.Pointer() == 0) {
+			return fmt.Sprintf("%s: len %d cap %d data %#x", path, rv.Len(), rv.Cap(), rv.Pointer())
+		}
+		if k := rv.Type().Elem().Kind(); k == reflect.Ptr || k == reflect.Struct || k == reflect.Slice || k == reflect.Map || k == reflect.Interface {
+			for i := 0; i < rv.Len(); i++ {
+				if s := badSliceHeader(rv.Index(i), fmt.Sprintf("%s[%d]", path, i)); s != "" {
+					return s
+				}
+			}
+		}
+	}
+	return ""
+}
